@@ -19,11 +19,48 @@ from . import layout_checks
 
 # ---------------------------------------------------------------- recording stand-ins for the cantools classes
 class Rec:
+    """Recording stand-in: remembers how it was constructed; arguments are read by *parameter name* of the class it
+    replaces (positional or keyword, defaults included), and reading an attribute gives the argument of that name."""
     log = []
+    _sig = None
 
     def __init__(self, *a, **k):
-        self.a, self.k = a, k
+        self.__dict__["a"], self.__dict__["k"] = a, k
         Rec.log.append(self)
+
+    def get(self, name, default=None):
+        sig = type(self)._sig
+        if sig is None:
+            return self.k.get(name, default)
+        try:
+            b = sig.bind_partial(None, *self.a, **self.k)
+        except TypeError:
+            return self.k.get(name, default)
+        if name in b.arguments:
+            return b.arguments[name]
+        p = sig.parameters.get(name)
+        if p is not None and p.default is not p.empty:
+            return p.default
+        return default
+
+    def __getattr__(self, name):
+        if name.startswith("__"):
+            raise AttributeError(name)
+        missing = object()
+        v = self.get(name, missing)
+        if v is missing:
+            raise AttributeError(name)
+        return v
+
+
+def rec_for(orig, base):
+    """A recorder class for `orig` (signature taken from the real class)."""
+    import inspect
+    try:
+        sig = inspect.signature(orig.__init__)
+    except (TypeError, ValueError):
+        sig = None
+    return type(base.__name__, (base,), {"_sig": sig})
 
 
 class RecSignal(Rec):
@@ -43,16 +80,23 @@ class RecDatabase(Rec):
         return self
 
 
+_ORIG = {}
+
+
 def _setup_sym():
     add_repo_paths()
     layout_checks._setup()
     enable_ratio()
     from fcp_dbc import dbc_writer
 
-    dbc_writer.CanSignal = RecSignal
-    dbc_writer.CanMessage = RecMessage
-    dbc_writer.CanNode = RecNode
-    dbc_writer.CanDatabase = RecDatabase
+    global _ORIG
+    if not _ORIG:
+        _ORIG.update({"CanSignal": dbc_writer.CanSignal, "CanMessage": dbc_writer.CanMessage, "CanNode": dbc_writer.CanNode,
+                      "CanDatabase": dbc_writer.CanDatabase})
+    dbc_writer.CanSignal = rec_for(_ORIG["CanSignal"], RecSignal)
+    dbc_writer.CanMessage = rec_for(_ORIG["CanMessage"], RecMessage)
+    dbc_writer.CanNode = rec_for(_ORIG["CanNode"], RecNode)
+    dbc_writer.CanDatabase = rec_for(_ORIG["CanDatabase"], RecDatabase)
     dbc_writer.ceil = sym_ceil
     dbc_writer.range = ForkingRange
     dbc_writer.str = lambda x="": x if isinstance(x, Rec) else str(x)
@@ -132,11 +176,10 @@ def sym_layout_case(args):
             start = z3.BitVecVal(0, W)
             ends = []
             for i, s in enumerate(sigs[:n]):
-                k = s.k
-                a = s.a
+                k = s
                 exp_start = start + 7 if endians[i] == "big" else start
-                cs.append(z3of(a[1]) == exp_start)
-                cs.append(z3of(a[2]) == lens[i].e)
+                cs.append(z3of(s.get("start")) == exp_start)
+                cs.append(z3of(s.get("length")) == lens[i].e)
                 cs.append(z3.BoolVal(k.get("byte_order") == ("big_endian" if endians[i] == "big" else "little_endian")))
                 cs.append(bool_expr(k.get("is_signed")) == signed[i])
                 cs.append(z3.BoolVal(k.get("unit") is units[i]))
@@ -470,9 +513,9 @@ def c14_writer_case(args):
                    env=env, make_replay=mk, what=f"a CAN binding wider than 64 bits got a DBC message ({skname})")
             cs = []
             for mrec in msgs:
-                sigs = mrec.k.get("signals", [])
-                dlc = mrec.k.get("length")
-                rng = [(z3of(s.a[1]), z3of(s.a[1]) + z3of(s.a[2])) for s in sigs]
+                sigs = mrec.get("signals", [])
+                dlc = mrec.get("length")
+                rng = [(z3of(s.get("start")), z3of(s.get("start")) + z3of(s.get("length"))) for s in sigs]
                 for (a0, a1) in rng:
                     cs.append(a1 <= z3of(dlc) * 8)
                 for (a0, a1), (b0, b1) in itertools.combinations(rng, 2):
@@ -501,7 +544,9 @@ def c14_cwriter_case(args):
     import fcp_can_c.can_c_writer as cw
     from fcp.encoding import make_encoder, PackedEncoderContext
 
-    cw.CanSignal = RecSignal
+    if "cw.CanSignal" not in _ORIG:
+        _ORIG["cw.CanSignal"] = cw.CanSignal
+    cw.CanSignal = rec_for(_ORIG["cw.CanSignal"], RecSignal)
     cw.ceil = sym_ceil
     cw.max = __import__("verif.pysym", fromlist=["sym_max"]).sym_max
     cw.range = ForkingRange
@@ -548,7 +593,7 @@ def c14_cwriter_case(args):
                 continue
             sigs, dlc = out
             cs = [z3of(dlc) * 8 >= total, z3of(dlc) * 8 < total + 8]
-            rng = [(z3of(s.k["start_bit"]), z3of(s.k["start_bit"]) + z3of(s.k["bit_length"])) for s in sigs]
+            rng = [(z3of(s.get("start_bit")), z3of(s.get("start_bit")) + z3of(s.get("bit_length"))) for s in sigs]
             for a0, a1 in rng:
                 cs.append(a1 <= z3of(dlc) * 8)
             for (a0, a1), (b0, b1) in itertools.combinations(rng, 2):
